@@ -52,6 +52,11 @@ CLAIMS = {
         "Decides structural necessary conditions only: no-lost-wake-up protocol shape on worker and spawner side, run-once / panic-captured / result-always-sent, one processor id and pin-before-loop, shutdown ordering, no task under a queue lock. The enqueue/shutdown discipline (R5) is violated on the pinned tree: genuine, reproduced (handles hang) and recorded as three known findings; the repair is cross-cutting. Liveness over all schedules is not decided.",
         "Trusted: rustc nightly MIR, factgen extraction, expansion shape of event_listener's listener! macro (StackSlot::listen / Listener::wait), user-code classification.",
         "DESIGN.md section 3, C14"),
+    "C15": (
+        "MIR rules: per-path counting of reference-count effects of the RawWaker vtable functions (own atomic ops + callee calls), control-dependence of the free on the decrement's result, evaluated orderings, dominance of the activation-flag swap over the inner poll, guard liveness at parent clone/wake, method whitelist and predicate check on the slot deque, destruction-site census for metadata release",
+        "Decides structural necessary conditions only: refcount effects clone +1 / wake -1 / wake_by_ref 0 / drop -1 / make_waker +1 / create 1 with free on last; Release decrement and Acquire before free; clear-flag-before-poll and 0->1 parent wake outside the lock; parent installed through an unconditional lock; removals only at the ends under the readiness predicate; one release_ref per destroyed Pending slot. Order equivalence with a reference deque over all histories and wake delivery over all interleavings are not decided.",
+        "Trusted: rustc nightly MIR, factgen extraction (evaluated constants/orderings), method whitelist in vf/props/c15.py.",
+        "DESIGN.md section 3, C15"),
     "C17": (
         "MIR rules: detection of lifetime-erasing transmutes (source = target after region erasure), exit analysis over both return and unwind edges (must-pass-through of a drain-guard Drop on every unwind path from a panicking call after the first cross-thread hand-off; returns only behind the collection loop's exhaustion), loop/dominance shape of the per-thread closure, backward slices for barrier size and group indexes",
         "Decides structural necessary conditions only: the scope obligation created by the lifetime-erasing transmute (no return or unwind before all result channels are drained), the call-count shape of the per-thread closure, barrier/grouping provenance. The violation found on the pinned tree (panicking expect inside the collection/dispatch loops) was a genuine, reproduced use-after-return and is repaired by a fix: commit. Numeric iteration counts for all inputs are not decided.",
